@@ -269,6 +269,7 @@ def _worker(args):
             rng = random.Random(seed * 1_000_003 + i)
             scn = scenario.gen_scenario(rng, length)
         mons = monitors.all_monitors()
+        dac_faulty = any(a and a[0] == "dac_fault" for a in scn["actions"])
         r = scenario.Runner(scn.get("opts"), mons)
         mism = []
         seen_obs = set()
@@ -287,6 +288,13 @@ def _worker(args):
                 return
             o = obs[name]
             keepvals = vals
+            if name == "Swim" and dac_faulty:
+                # with DAC write errors the real SwimPumpDevice may leave the relay OFF although speed() was called (stale
+                # cached speed): under-actuation under a device fault, outside the model (which assumes speed() energises)
+                i = o["keep"].index("dev:swim") if "dev:swim" in o["keep"] else None
+                if i is not None and any((leaf, keepvals[:i] + (x,) + keepvals[i + 1:], armed) in o["safety"] for x in (0, 1)) and keepvals[i] == 0:
+                    seen_obs.add((name, leaf, keepvals, armed))
+                    return
             seen_obs.add((name, leaf, keepvals, armed))
             if (leaf, keepvals, armed) not in o["safety"] and len(mism) < 5:
                 mism.append({"actor": name, "view": "safety", "after": msg, "leaf": side["actors"][name]["leaves"][leaf], "vars": dict(zip(o["keep"], keepvals)), "armed": (side["actors"][name]["msgs"][armed] if isinstance(armed, int) and armed >= 0 else armed), "at_us": r.world.now_us, "step": r.step_no})
